@@ -55,7 +55,7 @@ def gen_case(rng: Rng, i: int, tier: str):
         if tex == "rand":
             size = min(size, 768)
     entry = "writef" if tier == "quick" or r.chance(0.6) else "write"
-    read = "factory" if tier == "quick" else r.pick(["factory", "path", "testzip"])
+    read = r.pick(["factory", "factory", "testzip"]) if tier == "quick" else r.pick(["factory", "path", "testzip"])
     case = {"chain": chain, "tex": tex, "size_mib": size, "position": r.pick(["first", "last", "between"]), "entry": entry, "read": read, "seed": r.randrange(1 << 30)}
     # environment knob: the extraction chunk is derived from the process's data-segment limit when one is set
     # (properties.get_memory_limit); a generous soft limit must leave the 128 MB cap in force
